@@ -87,8 +87,8 @@ func (l *c15FS) Load(name string) (string, error) {
 	}
 	return s, err
 }
-func (l *c15FS) Exists(name string) bool                   { return l.inner.Exists(name) }
-func (l *c15FS) GetModifiedTime(n string) (int64, error)   { return l.inner.GetModifiedTime(n) }
+func (l *c15FS) Exists(name string) bool                 { return l.inner.Exists(name) }
+func (l *c15FS) GetModifiedTime(n string) (int64, error) { return l.inner.GetModifiedTime(n) }
 
 // model of one loader
 type c15ModelLoader struct {
